@@ -2,6 +2,7 @@ package main
 
 import (
 	"fmt"
+	"go/constant"
 	"go/token"
 	"go/types"
 	"sort"
@@ -211,7 +212,7 @@ func c18Tiling(c *Ctx, r *Report, rule string) {
 // sizes around the chunk boundaries; only the length and type bytes are fixed, the content is symbolic), the
 // serialiser's on messages of the same payload sizes: both must produce the reference splitting.
 func c18Chunks(c *Ctx, r *Report, rule string) {
-	r.rule(rule, "Winbox chunking (evaluation of MessageAuth.FromBytes on well-formed chunk sequences for payloads of 35..766 bytes around the chunk boundaries, and of ToChunks for the same payload sizes): the parser accepts every well-formed sequence and hands on chunks that tile the payload; sequences with a short inner chunk, a wrong chunk type, a missing tail or bytes behind the last chunk are rejected; the serialiser splits a payload into the same chunks", 2)
+	r.rule(rule, "Winbox chunking (evaluation of MessageAuth.FromBytes on well-formed chunk sequences for payloads of 35..766 bytes around the chunk boundaries, and of ToChunks for the same payload sizes): the parser accepts every well-formed sequence that is no longer than the longest auth message (MessageAuthBytesMax) and hands on chunks that tile the payload, and rejects the longer ones; sequences with a short inner chunk, a wrong chunk type, a missing tail or bytes behind the last chunk are rejected; the serialiser splits a payload into the same chunks", 2)
 	const max = 255
 	split := func(n int) []int {
 		var out []int
@@ -240,14 +241,26 @@ func c18Chunks(c *Ctx, r *Report, rule string) {
 			accept bool
 		}
 		var cases []tcase
-		for _, n := range sizes {
+		// no auth message is longer than the package's MessageAuthBytesMax: a longer chunk sequence is well formed
+		// as chunks go, but it is no auth message, and the parser of auth messages rejects it
+		maxTotal := int64(1 << 30)
+		for _, p := range c.Pkgs {
+			if short(p.PkgPath) == "modules/l4winbox" {
+				if cst, ok := scopeLookup(p.Types, "MessageAuthBytesMax").(*types.Const); ok {
+					if v, ok := constant.Int64Val(constant.ToInt(cst.Val())); ok {
+						maxTotal = v
+					}
+				}
+			}
+		}
+		for _, n := range append(append([]int(nil), sizes...), 289, 290) {
 			cs := split(n)
 			ts := make([]int64, len(cs))
 			for i := range ts {
 				ts[i] = 0xFF
 			}
 			ts[0] = 0x06
-			cases = append(cases, tcase{fmt.Sprintf("payload=%d", n), cs, ts, 0, true})
+			cases = append(cases, tcase{fmt.Sprintf("payload=%d", n), cs, ts, 0, int64(n+2*len(cs)) <= maxTotal})
 		}
 		cases = append(cases,
 			tcase{"short inner chunk", []int{200, 100}, []int64{0x06, 0xFF}, 0, false},
